@@ -180,6 +180,21 @@ CLAIMED["C12"] = (
     "Trusted: Lean kernel; standard axioms; harness; astropy coordinate classes (modelled). Runtime behaviour not modelled: unit conversion and Time arithmetic rounding.",
     "Lean 4 proofs over lists/permutations (scatter/gather, freshness induction) + differential correspondence on generated frame layouts", "DESIGN.md §6 C12")
 
+CLAIMED["C16"] = (
+    "Lean 4 theorems on the unit glue (_add_units_input, _remove_quantity_output, _sanitize_pixel_inputs, the isnumerical/get_values dispatch "
+    "of invert, frame.coordinates) for an ARBITRARY numeric transform of any arity with declared units: the values interface of the "
+    "unit-carrying WCS equals that of its unit-free twin in both directions and returns bare numbers (values_agree, world_values_agree); "
+    "world quantities in any convertible unit invert like bare numbers in frame units (quantity_any_unit, _usesQ, bare_equals_frame_units, "
+    "via toValue_trans); a pixel quantity in a wrong unit at any position, whatever the other arguments, is rejected and one in the frame "
+    "unit is stripped (wrong_pixel_unit_rejected, right_pixel_unit_stripped, wrong_pixel_dim_rejected); objects requested with units carry "
+    "the frame's units and the values-interface numbers, and the twins build the same objects (with_units_in_frame_units, objects_agree). "
+    "PARTIAL: astropy's unit registry and SkyCoord frame conversion are modelled as per-axis rescalings / bijections and measured. Tied to "
+    "gwcs by correspondence on generated twin pairs (9 operations per pair incl. mixed wrong-unit pixels) and by metamorphic comparison of "
+    "the twins incl. a TAN imaging WCS, world inputs in deg/arcsec/arcmin/rad, m/um/nm/AA, Hz/MHz/GHz, s/min/h, SkyCoord in "
+    "ICRS/FK5/FK5(J1975)/FK4/Galactic, SpectralCoord, Time.",
+    "Trusted: Lean kernel; standard axioms; harness (twin construction); astropy units/coordinates (modelled). Runtime behaviour not modelled: float rounding of unit conversion (1e-11 relative).",
+    "Lean 4 proofs over lists/rationals for arbitrary numeric transforms + differential and twin (metamorphic) correspondence", "DESIGN.md §6 C16")
+
 NOT_YET = "check not built yet in this round; will be claimed once its Lean model, theorems and correspondence run green"
 
 
